@@ -1003,3 +1003,422 @@ def dfs_schedules(scn, pa, pb, bound, cap):
                         stack.append([r[1] for r in record[:i]] + [alt])
             if last in en and c != last:
                 pre += 1
+
+
+# ------------------------------------------------------------------------------------------ judging a trace
+CLAUSES = ["SlotReturnedExactlyOnce", "SlotNotLost", "NotPooledWhileOpen", "NeverHangs", "OnlyUrllib3Errors",
+           "InterruptsPropagate", "NoOrphanSocket", "NoUseAfterRelease", "ShutdownActs", "CutNeverComplete",
+           "DisposalIdempotent", "ClosedIsStable", "ShutdownUnblocksReader", "NoDeadlock", "EveryoneFinishes", "ProbeServed"]
+SERVES = {"SlotReturnedExactlyOnce": "C01", "SlotNotLost": "C01", "NotPooledWhileOpen": "C02", "NeverHangs": "C02",
+          "OnlyUrllib3Errors": "C01", "InterruptsPropagate": "C01", "NoOrphanSocket": "C01", "NoUseAfterRelease": "C02",
+          "ShutdownActs": "C02", "CutNeverComplete": "C13", "DisposalIdempotent": "C01", "ClosedIsStable": "C01",
+          "ShutdownUnblocksReader": "C02", "NoDeadlock": "C02", "EveryoneFinishes": "C02", "ProbeServed": "C13"}
+
+
+def _findings():
+    return [f for f in known.load("C01") + known.load("RESPLIFE") if f["id"].startswith("RESPLIFE-")]
+
+
+def facts_of(tr, part, clause, pos):
+    """Facts about the failing step of a trace (pos: 1-based index of the observation at which the clause failed)."""
+    obs, steps = tr["obs"], tr["steps"]
+    i = min(max(pos - 1, 0), len(obs) - 1)
+    o = as_dict(obs[i])
+    who = steps[i - 1][0] if i >= 1 else "a"
+    f = {"area": "resplife", "part": part, "clause": clause, "fr": tr["fr"], "sv": tr["sv"], "mode": tr["mode"], "io": o["io"]}
+    t = who if who in ("a", "b") else "a"
+    if clause == "OnlyUrllib3Errors":
+        for n in ("a", "b"):
+            if o["errk_" + n] not in ("none", "urllib3") and not (o["errk_" + n] == "value" and o["op_" + n] == "shutdown"):
+                t = n
+    f["op"], f["res"] = o["op_" + t], o["res_" + t]
+    # did a disposal call or an error complete before this call began (sequential part)?
+    before = [as_dict(x) for x in obs[:i]]
+    f["after_dispose"] = any(b["ndisp"] >= 1 or b["nrerr"] >= 1 for b in before)
+    # two threads: did the OTHER thread take the http.client response away (fp = None) while this one was parked in recv?
+    other = "b" if t == "a" else "a"
+    cu = False
+    for k in range(1, i + 1):
+        prev, cur = as_dict(obs[k - 1]), as_dict(obs[k])
+        if steps[k - 1][0] == other and prev["pc_" + t] == "Recv" and prev["hfp"] and not cur["hfp"]:
+            cu = True
+    f["closed_under"] = cu
+    putters = {steps[k][0] for k in range(len(steps)) if steps[k][0] in ("a", "b") and as_dict(obs[k])["pc_" + steps[k][0]] == "QPut"}
+    f["puts_by"] = "two-threads" if len(putters) >= 2 else "one-thread"
+    return f
+
+
+def judge(rep, tr, verdict, part, case, stats):
+    """Turn TLC's verdict on one trace into known findings / violations / drift."""
+    fails, driftpos, dfield = verdict
+    for clause, pos in fails:
+        facts = facts_of(tr, part, clause, pos)
+        stats["fail"][clause] = stats["fail"].get(clause, 0) + 1
+        kf = known.match(_FIND[0], facts)
+        if kf is not None:
+            rep.known.append((kf["id"], kf["what"]))
+            stats["known"][kf["id"]] = stats["known"].get(kf["id"], 0) + 1
+            continue
+        sig = (clause, part, facts["op"], facts["res"], tr["fr"], tr["sv"] if part == "seq" else "")
+        if sig in stats["sigs"] and len(stats["sigs"]) >= 6:
+            stats["more"] += 1
+            continue
+        stats["sigs"].add(sig)
+        rep.violation(clause, f"response life cycle ({part}, {tr['fr']}/{tr['sv']}/{tr['mode']}): {_describe(case)} violates {clause} "
+                              f"[serves {SERVES.get(clause, '?')}] at step {pos} (call {facts['op']} -> {facts['res']}, socket I/O {facts['io']})",
+                      dict(case, clause=clause))
+    if driftpos and not fails:
+        stats["drift"] += 1
+        if len(rep.drift) < 10:
+            rep.drift.append(f"{tr['id']}: step {driftpos} of {_describe(case)} is not a step of the Model (first differing field: {dfield})")
+
+
+def _describe(case):
+    if case["part"] == "seq":
+        return "calls " + " ".join(case["ops"]) + " drop"
+    return f"reader {case['pa']} / disposer {case['pb']} schedule {''.join(case['steps'])}"
+
+
+_FIND = [None]
+
+
+# --------------------------------------------------------------------------------------------------- stage 1
+SEQ_INV = ["TypeOK", "InvSlotAtMostOnce", "InvSlotNotLost", "InvNotPooledWhileOpen", "InvNeverHangs", "InvOnlyUrllib3Errors",
+           "InvInterruptsPropagate", "InvNoOrphanSocket"]
+SEQ_PROP = ["PropNoUseAfterRelease", "PropShutdownActs", "PropCutNeverComplete", "PropDisposalIdempotent", "PropClosedIsStable"]
+CONC_INV = ["TypeOK", "InvSlotAtMostOnce", "InvSlotNotLost", "InvNotPooledWhileOpen", "InvNeverHangs", "InvOnlyUrllib3Errors",
+            "InvShutdownUnblocksReader", "InvNoDeadlock"]
+CONC_PROP = SEQ_PROP + ["ShutdownLeadsToDone"]
+ALLFIX = ["atomicrelease", "chunkresume", "shutdown"]
+
+
+def _cfg(part, fixes, extra="", view=True, check=True):
+    seq = part == "seq"
+    c = "SPECIFICATION %s\nCONSTANTS Eager = %s\n MaxOps = 99\n Fixes <- %s\nCHECK_DEADLOCK FALSE\n" % (
+        "SeqSpec" if seq else "ConcSpec", "TRUE" if seq else "FALSE", _fixes_name(fixes))
+    if view:
+        c += "VIEW %s\n" % ("SeqView" if seq else "ConcView")
+    if check:
+        c += "\n".join("INVARIANT " + i for i in (SEQ_INV if seq else CONC_INV)) + "\n"
+        c += "\n".join("PROPERTY " + i for i in (SEQ_PROP if seq else CONC_PROP)) + "\n"
+    return c + extra
+
+
+def stage1(rep, fixes, workers):
+    """Exhaustive checks: repaired design must satisfy every rule; each named deviation alone must be refuted with the
+    expected rule (the rules bite); the Model of the code as found is checked with the deviations detected on the tree."""
+    from concurrent.futures import ThreadPoolExecutor
+    jobs = [("seq-repaired", "seq", ALLFIX, None), ("conc-repaired", "conc", ALLFIX, None),
+            ("seq-without-shutdown-repair", "seq", ["atomicrelease", "chunkresume"], {"PropNoUseAfterRelease", "InvOnlyUrllib3Errors"}),
+            ("seq-without-chunkresume-repair", "seq", ["atomicrelease", "shutdown"], {"InvOnlyUrllib3Errors"}),
+            ("conc-without-atomicrelease-repair", "conc", ["chunkresume", "shutdown"], {"InvSlotAtMostOnce"})]
+    if sorted(fixes) != ALLFIX:
+        jobs += [("seq-code-as-found", "seq", fixes, "any"), ("conc-code-as-found", "conc", fixes, "any")]
+
+    def one(job):
+        name, part, fx, expect = job
+        return job, tlc.run("MC_RespLife", _cfg(part, fx), workers=workers, heap="3g", expect_fail=True, timeout=3000)
+
+    with ThreadPoolExecutor(max(1, min(len(jobs), JOBS // max(1, workers)))) as ex:
+        results = list(ex.map(one, jobs))
+    info = {}
+    for (name, part, fx, expect), r in results:
+        if r.error and not r.violated:
+            raise tlc.MachineryError(f"RespLife stage 1 ({name}): {r.error}\n{r.out[-2000:]}")
+        viol = sorted(set(r.violated))
+        info[name] = {"fixes": fx, "violated": viol, "distinct": r.distinct, "generated": r.generated, "wall_s": round(r.wall, 1)}
+        if expect is None:
+            rep.add_tlc(f"RespLife {name}: every rule, all fixes", r)
+            if viol:
+                raise tlc.MachineryError(f"RespLife stage 1: the repaired design ({name}) violates {viol} -- the specification is wrong")
+        elif expect == "any":
+            rep.add_tlc(f"RespLife {name}: Model of the code as found (Fixes = {fx})", r)
+            if not viol:
+                raise tlc.MachineryError(f"RespLife stage 1: the Model of the code as found ({name}, Fixes={fx}) violates nothing although "
+                                         f"the probes found deviations")
+        else:
+            if not (set(viol) & expect):
+                raise tlc.MachineryError(f"RespLife stage 1 canary {name}: TLC reported {viol}, expected one of {sorted(expect)}")
+    rep.extra["resplife_stage1"] = info
+
+
+# ------------------------------------------------------------------------------------- emission and replay
+def _pin_module(kinds=None, modes=None, pa=None, pb=None):
+    lines = ["---- MODULE MC_RespLifePin ----", "EXTENDS MC_RespLife"]
+    ks = " \\/ ".join('(x.fr = "%s" /\\ x.sv = "%s")' % k for k in (kinds or [])) or "TRUE"
+    ms = "x.mode \\in " + tlc.tla_val(set(modes)) if modes else "TRUE"
+    lines.append(f"PinScn(x) == ({ks}) /\\ {ms}")
+    if pa is not None:
+        lines.append("PinA == {" + ", ".join(tlc.tla_val(list(p)) for p in pa) + "}")
+        lines.append("PinB == {" + ", ".join(tlc.tla_val(list(p)) for p in pb) + "}")
+    lines.append("====")
+    return "\n".join(lines) + "\n"
+
+
+def emit_sequences(fixes, maxops, kinds, modes, workers):
+    extra = "INVARIANT EmitSeq\nCONSTANTS SeqScenario <- PinScn\n"
+    cfg = _cfg("seq", fixes, extra, view=False, check=False).replace("MaxOps = 99", f"MaxOps = {maxops}")
+    r = tlc.run("MC_RespLifePin", cfg, workers=workers, heap="4g", files={"MC_RespLifePin.tla": _pin_module(kinds, modes)},
+                expect_fail=True, timeout=6000)
+    seqs = tlc.tagged_json(r.out, "SEQ")
+    if r.error or r.violated or not seqs:
+        raise tlc.MachineryError(f"TLC emitted no call sequences: {r.error} {r.violated}\n{r.out[-2000:]}")
+    return seqs, r
+
+
+def emit_schedules(fixes, kinds, pa, pb, workers):
+    extra = "INVARIANT EmitSched\nCONSTANTS ConcScenario <- PinScn\n ProgsA <- PinA\n ProgsB <- PinB\n"
+    cfg = _cfg("conc", fixes, extra, view=False, check=False)
+    r = tlc.run("MC_RespLifePin", cfg, workers=workers, heap="4g", files={"MC_RespLifePin.tla": _pin_module(kinds, None, pa, pb)},
+                expect_fail=True, timeout=6000)
+    scheds = tlc.tagged_json(r.out, "SCHED")
+    if r.error or r.violated or not scheds:
+        raise tlc.MachineryError(f"TLC emitted no schedules: {r.error} {r.violated}\n{r.out[-2000:]}")
+    return scheds, r
+
+
+def _conc_worker(arg):
+    """Run a chunk of two-thread jobs on the real code and have TLC judge the traces.
+    job = ("sched", id, scn, pa, pb, steps, expected-final-obs) | ("dfs", idprefix, scn, pa, pb, bound, cap)
+          | ("rnd", idprefix, scn, pa, pb, seed, count)"""
+    chunk, fixes = arg
+    _freeze()
+    traces, meta = [], []
+
+    def keep(tr, tid, kind, mism=None):
+        tr["id"] = tid
+        traces.append(tr)
+        meta.append([tid, {"fr": tr["fr"], "sv": tr["sv"], "mode": "stream"}, tr["pa"], tr["pb"], [x[0] for x in tr["steps"]], kind, None, mism,
+                     tr["stuck"], tr["unrealised"]])
+
+    for job in chunk:
+        if job[0] == "sched":
+            _, tid, scn, pa, pb, steps, fin = job
+            tr = run_conc(scn, pa, pb, lambda en, n, last, pcs, steps=steps: steps[n] if n < len(steps) else None)
+            mism = None
+            if tr["unrealised"]:
+                mism = f"the code cannot take step {tr['unrealised'][0] + 1} ({tr['unrealised'][1]}); enabled: {tr['unrealised'][2]}"
+            elif len(tr["steps"]) != len(steps) or tr["stuck"] != fin["stuck"]:
+                mism = f"real run took {len(tr['steps'])} steps (stuck={tr['stuck']}), the model {len(steps)} (stuck={fin['stuck']})"
+            else:
+                o = as_dict(tr["obs"][-1])
+                for k, v in fin["obs"].items():
+                    got = {"pc": {"a": o["pc_a"], "b": o["pc_b"]}, "res": {"a": o["res_a"], "b": o["res_b"]}}.get(k, o.get(k))
+                    if k in ("op", "errk", "nops", "fr", "sv"):
+                        continue
+                    if got != v:
+                        mism = f"final {k} = {got!r}, the model expected {v!r}"
+                        break
+            keep(tr, tid, "tlc-schedule", mism)
+        elif job[0] == "dfs":
+            _, pre, scn, pa, pb, bound, cap = job
+            for k, tr in enumerate(dfs_schedules(scn, pa, pb, bound, cap)):
+                keep(tr, f"{pre}-{k}", "dfs")
+        else:
+            _, pre, scn, pa, pb, seed, count = job
+            rng = random.Random(seed)
+            for k in range(count):
+                tr = run_conc(scn, pa, pb, lambda en, n, last, pcs: rng.choice(en))
+                keep(tr, f"{pre}-{k}", "random")
+    v = {}
+    for i in range(0, len(traces), 1500):
+        v.update(validate(traces[i:i + 1500], False, fixes))
+    out = []
+    for m, tr in zip(meta, traces):
+        m[6] = v[m[0]]
+        # the full trace is only needed for failing / drifting runs
+        out.append((m, tr if (m[6][0] or m[6][1]) else None))
+    return out
+
+
+def _chunks(items, n):
+    return [items[i:i + n] for i in range(0, len(items), n)]
+
+
+def _pool_map(fn, args):
+    import multiprocessing as mp
+    if not args:
+        return []
+    if JOBS <= 1 or len(args) == 1:
+        return [fn(a) for a in args]
+    with mp.get_context("fork").Pool(min(JOBS, len(args))) as p:
+        return list(p.imap_unordered(fn, args))
+
+
+def run(rep):
+    quick = rep.tier == "quick"
+    install_points()
+    if _MISSING:
+        rep.drift.append("yield points of the Model that no longer resolve in urllib3/response.py: " + ", ".join(sorted(set(_MISSING))))
+    _FIND[0] = _findings()
+    fixes = detect_fixes()
+    rep.extra["resplife_repairs_present_in_tree"] = fixes
+    workers = max(1, min(4, JOBS // 2))
+    # ---- stage 1
+    stage1(rep, fixes, workers)
+    stats = {"fail": {}, "known": {}, "sigs": set(), "more": 0, "drift": 0}
+    labels_seen = set()
+    # ---- stage 2a: TLC-emitted call sequences, replayed and validated
+    plans = ([(2, SEQ_KINDS, ["stream"]), (1, [k for k in SEQ_KINDS], ["preload", "preload_norel"])] if quick else
+             [(4, SEQ_KINDS, ["stream"]), (2, SEQ_KINDS, ["preload", "preload_norel"])])
+    items, emitted = [], 0
+    for maxops, kinds, modes in plans:
+        if quick:
+            seqs, r = emit_sequences(fixes, maxops, kinds, modes, workers)
+            rep.add_tlc(f"RespLife emission of call sequences (<= {maxops} calls, modes {modes})", r)
+        else:
+            seqs = []
+            for kind in kinds:
+                sq, r = emit_sequences(fixes, maxops, [kind], modes, max(workers, JOBS))
+                rep.add_tlc(f"RespLife emission of call sequences (<= {maxops} calls, {kind}, modes {modes})", r)
+                seqs += sq
+        for sq in seqs:
+            emitted += 1
+            ops = [h["op"] for h in sq["hist"]]
+            if ops and ops[-1] == "drop":
+                ops = ops[:-1]
+            items.append((f"s{emitted}", {"fr": sq["fr"], "sv": sq["sv"], "mode": sq["mode"]}, ops, sq["hist"]))
+    # seeded random longer sequences (no expected observations: judged by TLC only)
+    rng = random.Random(rep.seed * 7919 + 17)
+    nrand = 600 if quick else 20000
+    for k in range(nrand):
+        fr, sv = rng.choice(SEQ_KINDS)
+        mode = "stream" if rng.random() < 0.85 else rng.choice(["preload", "preload_norel"])
+        ops = [rng.choice(OPS) for _ in range(rng.randint(3, 6))]
+        items.append((f"r{k}", {"fr": fr, "sv": sv, "mode": mode}, ops, None))
+    rep.extra["resplife_tlc_sequences_emitted"] = emitted
+    res = [x for c in _pool_map(_seq_worker, [(c, fixes) for c in _chunks(items, 700 if quick else 1500)]) for x in c]
+    if len(res) != len(items):
+        raise tlc.MachineryError(f"RespLife: {len(items)} call sequences planned, {len(res)} replayed")
+    replayed_tlc = 0
+    for sid, scn, ops, verdict, mism, nobs, probe in res:
+        rep.evaluations += 1
+        rep.traces += 1
+        if sid.startswith("s"):
+            replayed_tlc += 1
+        if any(o in READ_OPS for o in ops) and any(o in DISP_OPS + ("shutdown",) for o in ops):
+            rep.nontrivial.add(("seq", scn["fr"], scn["sv"], scn["mode"], tuple(ops)))
+        case = {"part": "seq", "scn": scn, "ops": ops}
+        if verdict[0] or verdict[1]:
+            tr = run_seq(scn, ops)
+            tr["id"] = sid
+            judge(rep, tr, verdict, "seq", case, stats)
+        elif mism:
+            stats["drift"] += 1
+            if len(rep.drift) < 10:
+                rep.drift.append(f"{sid}: calls {ops} on {scn}: {mism}")
+    if replayed_tlc != emitted:
+        raise tlc.MachineryError(f"RespLife: TLC emitted {emitted} call sequences, {replayed_tlc} were replayed")
+    rep.extra["resplife_sequences_replayed"] = len(res)
+    # ---- stage 2b / 3: two threads
+    ckinds = [("cl", "ka"), ("cl", "close"), ("cl", "cut"), ("cl", "never"), ("chunked", "ka"), ("chunked", "cut"), ("chunked", "never"),
+              ("chunked", "close"), ("eof", "close")]
+    dops = ["shutdown", "close", "release"]
+    progs_b = [[x] for x in dops] + [[x, y] for x in dops for y in dops]
+    progs_a = [["read"], ["readn", "readn", "readn"]]
+    jobs, nsched = [], 0
+    pins = ([([("cl", "ka"), ("cl", "never")], [["read"]], [["shutdown"]]), ([("eof", "close")], [["read"]], [["release"]])] if quick else
+            [([("cl", "ka"), ("cl", "never"), ("cl", "cut"), ("chunked", "ka")], [["read"]], [["shutdown"], ["release"]]),
+             ([("eof", "close"), ("cl", "close")], [["read"], ["readn", "readn", "readn"]], [["shutdown"], ["release"]]),
+             ([("cl", "ka")], [["read"]], [["close"], ["shutdown", "close"]])])
+    cap = 250 if quick else 6000
+    for kinds, pa, pb in pins:
+        scheds, r = emit_schedules(fixes, kinds, pa, pb, workers if quick else max(workers, JOBS))
+        rep.add_tlc(f"RespLife emission of complete schedules ({kinds}, reader {pa}, disposer {pb})", r)
+        srng = random.Random(rep.seed * 104729 + len(jobs))
+        if len(scheds) > cap:
+            scheds = srng.sample(scheds, cap)
+        for sc in scheds:
+            nsched += 1
+            jobs.append(("sched", f"t{nsched}", {"fr": sc["fr"], "sv": sc["sv"], "mode": "stream"}, sc["pa"], sc["pb"], sc["steps"],
+                         {"stuck": sc["stuck"], "obs": sc["fin"]}))
+    rep.extra["resplife_tlc_schedules_emitted"] = nsched
+    bound = 1 if quick else 2
+    dcap = 25 if quick else 400
+    k = 0
+    for fr, sv in ckinds:
+        for pa in progs_a:
+            for pb in progs_b:
+                k += 1
+                scn = {"fr": fr, "sv": sv, "mode": "stream"}
+                jobs.append(("dfs", f"d{k}", scn, pa, pb, bound, dcap))
+                jobs.append(("rnd", f"x{k}", scn, pa, pb, rep.seed * 1000003 + k, 6 if quick else 150))
+    srng = random.Random(rep.seed + 5)
+    srng.shuffle(jobs)
+    per = max(1, len(jobs) // (JOBS * (1 if quick else 6)) + 1)
+    cres = [x for c in _pool_map(_conc_worker, [(c, fixes) for c in _chunks(jobs, per)]) for x in c]
+    got_sched = 0
+    for m, tr in cres:
+        tid, scn, pa, pb, steps, kind, verdict, mism, stuck, unreal = m
+        rep.evaluations += 1
+        rep.traces += 1
+        if kind == "tlc-schedule":
+            got_sched += 1
+        if len({x for x in steps if x in ("a", "b")}) == 2 and any(steps[i] != steps[i + 1] for i in range(len(steps) - 1)):
+            rep.nontrivial.add(("conc", scn["fr"], scn["sv"], tuple(pa), tuple(pb), "".join(steps)))
+        case = {"part": "conc", "scn": scn, "pa": pa, "pb": pb, "steps": steps}
+        if verdict[0] or verdict[1]:
+            judge(rep, tr, verdict, "conc", case, stats)
+        elif mism:
+            stats["drift"] += 1
+            if len(rep.drift) < 10:
+                rep.drift.append(f"{tid}: TLC schedule {''.join(steps)} ({scn}, {pa}, {pb}): {mism}")
+    if got_sched != nsched:
+        raise tlc.MachineryError(f"RespLife: TLC emitted {nsched} schedules (after sampling), {got_sched} were replayed")
+    rep.extra["resplife_schedules_run"] = len(cres)
+    rep.extra["resplife_rule_failures_by_clause"] = stats["fail"]
+    rep.extra["resplife_known_findings_by_id"] = stats["known"]
+    rep.extra["resplife_model_drift_traces"] = stats["drift"]
+    rep.extra["resplife_violations_not_listed"] = stats["more"]
+    rep.rule = ("sequential: every call sequence TLC emits (<= %d calls over read/read(n)/read1(n)/stream/release_conn/drain_conn/close/"
+                "shutdown, then drop+gc, x framing x server x preload mode) plus seeded random longer ones; two threads: every complete "
+                "schedule TLC emits for the pinned scenarios, bounded-preemption DFS (bound %d) and seeded random schedules of reader x "
+                "disposer x server for every scenario; non-trivial = a sequence with at least one read call and one disposal call, or a "
+                "schedule in which both threads take steps and control switches at least once; distinct by (scenario, calls / schedule)"
+                % (plans[0][0], bound))
+    rep.assumptions += ["the yield points of the scheduler (10 source lines of response.py selected by pattern, the pool queue's put, the "
+                        "socket's recv / shutdown and the BufferedReader's lock) are the only preemption points explored",
+                        "body of two 4-byte units, maxsize=1, block=False, no read timeout, no content encoding",
+                        "CPython 3.12 http.client / io.BufferedReader semantics (the cooperative buffered-file wrapper reproduces the "
+                        "lock of BufferedReader: close() blocks behind a read in progress, flush() does not -- measured)"]
+    for tid in [x for x in res[:2]]:
+        rep.sample({"id": tid[0], "scenario": tid[1], "calls": tid[2], "verdict": tid[3][0] or "ok"})
+    for m, tr in cres[:2]:
+        rep.sample({"id": m[0], "scenario": m[1], "reader": m[2], "disposer": m[3], "schedule": "".join(m[4]), "verdict": m[6][0] or "ok"})
+    return rep
+
+
+def run_stage(rep):
+    """Extra stage of C01: the life cycle of the responses a pool hands out."""
+    rep.extra_module = "vh.resplife"
+    try:
+        keep_rule, keep_samples = rep.rule, list(rep.samples)
+        run(rep)
+        rep.extra["resplife_rule"] = rep.rule
+        rep.rule, rep.samples = keep_rule, keep_samples or rep.samples
+    finally:
+        rep.extra_module = None
+    return rep
+
+
+def replay(rep, path):
+    case = json.load(open(path))["case"]
+    _FIND[0] = _findings()
+    fixes = detect_fixes()
+    stats = {"fail": {}, "known": {}, "sigs": set(), "more": 0, "drift": 0}
+    if case["part"] == "seq":
+        tr = run_seq(case["scn"], case["ops"])
+        tr["id"] = "replay"
+        v = validate([tr], True, fixes)["replay"]
+    else:
+        steps = case["steps"]
+        tr = run_conc(case["scn"], case["pa"], case["pb"], lambda en, n, last, pcs: steps[n] if n < len(steps) and steps[n] in en else
+                      (last if last in en else en[0]))
+        tr["id"] = "replay"
+        v = validate([tr], False, fixes)["replay"]
+    rep.evaluations += 1
+    rep.traces += 1
+    rep.nontrivial.update({1, 2})
+    want = case.get("clause")
+    v = ([f for f in v[0] if want is None or f[0] == want], 0, "none")
+    judge(rep, tr, v, case["part"], {k: case[k] for k in case if k != "clause"}, stats)
